@@ -14,7 +14,7 @@ from common import *
 
 FAMILY = "grp"
 PENDING_FINDINGS = os.path.join(VERIF, "pending_repo_patches", "C16_findings.json")
-QUIRK_NAMES = ["startFix", "noackFix", "rangeFix", "histFix"]
+QUIRK_NAMES = ["startFix", "noackFix", "rangeFix", "histFix", "redeliverFix", "filterFix"]
 
 
 # ------------------------------------------------------------------ which repairs does the tree have?
@@ -63,9 +63,20 @@ def detect_quirks():
     gr = body(cg, r"pub\s+fn\s+get_range\s*\([^{]*\{")
     if gr is None:
         problems.append("PendingEntryList::get_range not found")
-        q["rangeFix"] = False
+        q["rangeFix"] = q["filterFix"] = False
     else:
-        q["rangeFix"] = bool(re.search(r"\bstart\s*>\s*end\b|\bend\s*<\s*start\b", gr))
+        # the reversed-range test must guard the unfiltered walk (it may also appear in the consumer branch)
+        unfiltered = gr[gr.rfind("} else {"):] if "} else {" in gr else gr
+        q["rangeFix"] = bool(re.search(r"\bstart\s*>\s*end\b|\bend\s*<\s*start\b", unfiltered))
+        # repaired form: the consumer's rows are selected from a range walk of entries_by_id by comparing the row's consumer
+        q["filterFix"] = bool(re.search(r"\.range\([^)]*\)[^;]*\.filter\([^;]*\.consumer\s*==", gr, re.S)) and "consumer_ids" not in gr
+    ap = body(cg, r"pub\s+fn\s+add_pending\s*\([^{]*\{")
+    if ap is None:
+        problems.append("ConsumerGroup::add_pending not found")
+        q["redeliverFix"] = False
+    else:
+        # repaired form: an id that is already pending is moved with transfer_ownership and only new ids are counted
+        q["redeliverFix"] = bool(re.search(r"get_entry_mut\([^)]*\)[^;]*\{.*transfer_ownership\(", ap, re.S)) and not re.search(r"\+=\s*entries\.len\(\)", ap)
     return q, problems
 
 
@@ -190,7 +201,7 @@ class Gen:
         if k < 13:
             return "createc %d %d" % (g, r.choice(CONSUMERS))
         if k < 15:
-            if self.clean:
+            if self.clean and not self.quirks.get("redeliverFix"):
                 cur = groups[g].last if g in groups else (0, 0)
                 return "setid %d %s" % (g, sid(r.choice([i for i in stream if i >= cur] + [cur])))
             return "setid %d %s" % (g, r.choice(["$", "0-0", sid(self.any_id(stream))]))
@@ -237,7 +248,7 @@ class Gen:
         if k < 85:
             return "createc %d %d" % (g, c)
         if k < 87:
-            if clean:
+            if clean and not self.quirks.get("redeliverFix"):
                 # forwards only (never below the cursor): moving the cursor back re-delivers pending entries
                 cur = groups[g].last if g in groups else (0, 0)
                 cand = [i for i in stream if i >= cur] + [cur]
@@ -255,7 +266,8 @@ class Gen:
             lo, hi = min(a, b), max(a, b)
             form = r.below(3)
             s, e = [("-", "+"), (sid(lo), sid(hi)), (sid(lo), "+")][form]
-            return "prange %d %s %s %d -" % (g, s, e, r.choice([1, 2, 10]))
+            cf = str(c) if self.quirks.get("filterFix") and r.chance(1, 2) else "-"
+            return "prange %d %s %s %d %s" % (g, s, e, r.choice([1, 2, 10]), cf)
         s = "-" if r.chance(1, 3) else sid(a)
         e = "+" if r.chance(1, 3) else sid(b)
         cf = "-" if r.chance(1, 2) else str(c)
@@ -628,7 +640,8 @@ EXTRA_CORPUS = [
 
 def quirk_of_shape(shape):
     return {"start-ignored": "startFix", "noack-no-advance": "noackFix", "xpending-reversed-range-panics": "rangeFix",
-            "explicit-id-rereads-stream": "histFix"}.get(shape)
+            "explicit-id-rereads-stream": "histFix", "redelivery-breaks-accounting": "redeliverFix",
+            "xpending-consumer-filter-ignores-range": "filterFix"}.get(shape)
 
 
 def shrink_history(runner, ops, still_fails):
